@@ -814,8 +814,10 @@ func c05HistoryUnits(tier string) []Unit {
 		// whole ring (a second, nearer provider of one key): run-time
 		// resolution still traverses the ring
 		sh := alpha{scopes: []int{0, 1}, ctors: []*uFunc{rAB, rBC, rCD, rDA, pB0}, export: true, invokes: []*uFunc{iA}}
-		units = append(units, Unit{Sc: &Scenario{Name: fmt.Sprintf("histories/shadowed-ring/defer=%v", def), Cfg: h.Config{Defer: def}, Prefix: prefixChild,
-			Alphabet: sh.ops(), Depth: 6, Budget: explore.Budget{Provides: 5, Invokes: 1, Rejected: 1}, Allowed: onceEach, Monitors: []explore.Monitor{c05Monitor}}})
+		if !def || !q { // quick: eager verification only (that is where the Provide must be rejected)
+			units = append(units, Unit{Sc: &Scenario{Name: fmt.Sprintf("histories/shadowed-ring/defer=%v", def), Cfg: h.Config{Defer: def}, Prefix: prefixChild,
+				Alphabet: sh.ops(), Depth: 6, Budget: explore.Budget{Provides: 5, Invokes: 1, Rejected: 1}, Allowed: onceEach, Monitors: []explore.Monitor{c05Monitor}}})
+		}
 		// 2. the same pieces registered from inside a running Invoke
 		var ops []Op
 		pieces := []*uFunc{rAB, pB, pDd}
